@@ -502,6 +502,26 @@ func (n *Node) Mine(blocks []*Block, announce bool) {
 	}
 }
 
+// Ready reports whether at least one connection has completed the handshake and is still open.
+func (n *Node) Ready() bool {
+	n.mu.Lock()
+	defer n.mu.Unlock()
+	for _, c := range n.conns {
+		if c.handshaken && !c.closed {
+			return true
+		}
+	}
+	return false
+}
+
+// MineWhenReady waits (bounded) for a handshaken connection before mining and announcing.
+func (n *Node) MineWhenReady(blocks []*Block, announce bool, maxWait time.Duration) {
+	for d := time.Now().Add(maxWait); !n.Ready() && time.Now().Before(d); {
+		time.Sleep(2 * time.Millisecond)
+	}
+	n.Mine(blocks, announce)
+}
+
 // Stats of the node.
 type Stats struct {
 	Accepted, Refused, Live, ClosedByRemote int
